@@ -238,8 +238,42 @@ def r3_zip_enumerate(text):
         n += 1
 
 
-RULES = [('R0', r0_visibility_and_stats), ('R1', r1_ref_patterns), ('R2', r2_array_literal_loops),
-         ('R3', r3_zip_enumerate)]
+def r7_param_patterns(text):
+    """`fn f(.., StructPat { a: x, b: y }: &T, ..) {` => `fn f(.., p__1: &T, ..) { let StructPat { a: x, b: y } = p__1;`
+    (Verus: function inputs must be identifiers)."""
+    toks = lex(text)
+    # locate `fn name (`
+    k = 0
+    while k < len(toks) and not (toks[k].kind == 'ident' and toks[k].text == 'fn'):
+        k += 1
+    if k >= len(toks):
+        return text, 0
+    j = k
+    while toks[j].text != '(':
+        j += 1
+    close = match_close(toks, j)
+    params = _split_commas(toks, j, close)
+    edits, lets, n = [], [], 0
+    for (a, b) in params:
+        if toks[a].kind == 'ident' and toks[a].text[0].isupper() and a + 1 <= b and toks[a + 1].text in ('{', '('):
+            pc = match_close(toks, a + 1)
+            if toks[pc + 1].text != ':':
+                continue
+            n += 1
+            name = f'p__{n}'
+            pat = text[toks[a].start:toks[pc].end]
+            nl = pat.count('\n')
+            edits.append((toks[a].start, toks[pc].end, name + '\n' * nl))
+            lets.append(f" let {' '.join(pat.split())} = {name};")
+    if not n:
+        return text, 0
+    bo = _find_block_open(toks, close + 1)
+    edits.append((toks[bo].end, toks[bo].end, ''.join(lets)))
+    return _apply_edits(text, edits), n
+
+
+RULES = [('R0', r0_visibility_and_stats), ('R1', r1_ref_patterns), ('R7', r7_param_patterns),
+         ('R2', r2_array_literal_loops), ('R3', r3_zip_enumerate)]
 
 
 def desugar(text, rules=None):
